@@ -146,7 +146,7 @@ CHECKS = {
    technique="Coq proof of hand-written Gallina acceptor model + correspondence check (strace'd traces of the real stages decided by the extracted acceptor)", ref="DESIGN.md section 7 C19"),
  'C06': dict(
    text="Theorems: c06_factor_one_subset_is_everything (with bootstrap factor 1 every acceptable draw, sorted as tally_votes sorts it, is the whole marker "
-        "list 0..n-1 whatever the generator returned) and c06_nearest_independent_of_draw; c06_per_cell (for EVERY decision procedure whose record for a cell "
+        "list 0..n-1 whatever the generator returned), c06_nearest_independent_of_draw, c06_factor_one_tally and c06_factor_one_unanimous (hence every iteration is won by the same leaf: probability 1, no runner-up, a function of the cell alone — also checked on every real factor-1 run); c06_per_cell (for EVERY decision procedure whose record for a cell "
         "is a function of that cell alone, every valid taxonomy, cell list and generator state, run_type_assignment — shared previously_assigned tables, "
         "write-back by row index, visits in sorted node order — equals, row by row, the per-cell recursion map_one down the tree); corollaries "
         "c06_same_cell_same_row (permutation, subset, superset, duplication: same cell, same row, at any positions of any two runs) and c06_chunking (any split "
